@@ -4,6 +4,7 @@ import re
 
 import gen_gin as G
 import gindom
+import refmodel
 
 
 def to_driver(case, impl):
@@ -22,7 +23,8 @@ RULE = ('3-5 registered probes with case-colliding and suffix-sharing names (inc
         'splits, references, macros with case-colliding names, scoped names with case-colliding scopes, values without '
         'literal form: objects, sets, inf, complex, unknown-reference placeholders - also as macro values), 0-4 import '
         'statements of standard-library modules in every form and alias shape, in a third of the cases one probe registered '
-        'only after the bindings and after a first config_str() call, applied in '
+        'only after the bindings and after a first config_str() call, in a third references written with a partial dotted name '
+        'that a later registration takes over as its complete name (each binding with a literal form is restored), applied in '
         'two random orders, serialised with (max_line_length, continuation_indent) drawn from {(80,4),(40,4),(20,2),'
         '(10,0),(5,4)...}; the text is compared structurally with the mirror and the real code is used as its own '
         'oracle: same text for both orders, clear + parse restores every representable binding (value and type) and the '
@@ -119,6 +121,38 @@ def gen_case(rng):
     form = rng.choice(['tuple', 'str', 'text']) if G_repr(val) else rng.choice(['tuple', 'str'])
     binds.append({'op': 'bind', 'scope': rng.choice(scopes), 'sel': reg['_selector'], 'arg': rng.choice(cls), 'val': val,
                   '_form': form, 'block': False})
+  # a reference written with a partial, module-qualified name (`@n.f` for `m.n.f`) that a LATER registration turns into
+  # the complete name of another configurable (`f` of module `n`): the binding names its original target all the same
+  lates2 = []
+  if rng.random() < 0.3:
+    every = [o['_selector'] for o in ops if o.get('op') == 'register'] + ([late['_selector']] if late is not None else []) \
+        + ['gin.macro', 'gin.constant', 'gin.singleton']
+    cands = []
+    for reg in regs:
+      parts = reg['_selector'].split('.')
+      for k in range(2, len(parts)):
+        sp = '.'.join(parts[-k:])
+        if refmodel.suffix_matches(every, sp) == [reg['_selector']]:
+          cands.append((reg, sp))
+    if cands:
+      tgt, sp = rng.choice(cands)
+      for _ in range(rng.randint(1, 3)):
+        ref = {'ref': [rng.choice([[], [], ['a'], ['a', 'B']]), tgt['_selector'], rng.random() < 0.4], '_spelled': sp}
+        r = rng.random()
+        val = ref if r < 0.6 else ({'l': [rng.randint(0, 9), ref]} if r < 0.8 else {'t': [{'l': [ref, {'s': 'k'}]}]})
+        if rng.random() < 0.2:
+          binds.append({'op': 'bind', 'scope': rng.choice(['m', 'M', 'lr', 'a/m']), 'sel': 'gin.macro', 'arg': 'value', 'val': val,
+                        '_form': 'macro_text', 'block': False})
+          continue
+        reg = rng.choice(regs_b)
+        cls = [n for n, k in G.param_classes(reg).items() if k == 'valid']
+        if cls:
+          binds.append({'op': 'bind', 'scope': rng.choice(scopes), 'sel': reg['_selector'], 'arg': rng.choice(cls), 'val': val,
+                        '_form': 'text', 'block': False})
+      newer = G.gen_late_register(rng, 95)
+      lmod, _, lname = sp.rpartition('.')
+      newer.update(name=lname, module=lmod, _pymodule=lmod, _selector=sp)
+      lates2 = [newer]
   order2 = list(binds)
   rng.shuffle(order2)
   # a later binding of the same key must stay later in both orders (same final store)
@@ -130,8 +164,9 @@ def gen_case(rng):
   width = rng.choice(WIDTHS)
   imports = rng.sample(IMPORT_LINES, rng.randint(0, 4)) if rng.random() < 0.5 else []
   lates = [late] if late is not None else []
-  return {'dom': 'gin', 'ops': ops + order1 + lates + [{'op': 'cfgdoc'}], '_order2': order2, '_width': list(width),
-          '_regops': ops + lates, '_imports': imports, '_probe_at': len(ops + order1) if lates else None}
+  # (the registration that takes over a written spelling comes after the bindings in the other order as well)
+  return {'dom': 'gin', 'ops': ops + order1 + lates + lates2 + [{'op': 'cfgdoc'}], '_order2': order2 + lates2, '_width': list(width),
+          '_regops': ops + lates, '_imports': imports, '_probe_at': len(ops + order1) if lates + lates2 else None}
 
 
 # import statements of real (standard library) modules under static registration: every form, aliases that
@@ -169,6 +204,14 @@ def _imports_restored(before, after):
     if st[2] != want[2] and names.count(_bound(want)) == 1:
       return f'{st[0]}: alias {want[2]!r} became {st[2]!r} without a name collision'
   return None
+
+
+def encode_text(v):
+  from encode import to_literal
+  try:
+    return to_literal(v)[:80]
+  except Exception:  # pylint: disable=broad-except
+    return repr(v)[:80]
 
 
 def G_repr(v):
@@ -336,6 +379,10 @@ def run_impl(case):
         if got == '<missing>' or got != v or type(got) is not type(v):
           lost.append([scope, sel, p, repr(v)[:60], repr(got)[:60]])
     res['lost'] = lost
+    # which bindings came back (equal value of the same type), whatever the implementation thinks of their literal form
+    res['restored'] = [[scope, sel, p] for (scope, sel, p), v in before.items()
+                       if p in after.get((scope, sel), {}) and after[(scope, sel)][p] == v
+                       and type(after[(scope, sel)][p]) is type(v)]
   except Exception as e:  # pylint: disable=broad-except
     res['reparse'] = f'{type(e).__name__}: {e}'[:300]
   s.cleanup()
@@ -377,6 +424,17 @@ def oracle(case, impl):
     return f'recorded imports {impl.get("imports")} not restored by parsing the config string ({why}): {impl.get("imports_again")}'
   if impl['lost']:
     return f'bindings not restored by parsing the config string: {impl["lost"][:3]}'
+  # stated on the case: a binding whose value has a literal form (literals, containers of them, references, macros)
+  # is restored, whichever names were registered after it was written
+  if 'restored' in impl:
+    restored = {tuple(x) for x in impl['restored']}
+    final = {}
+    for op, r in zip(case['ops'], impl['out']):
+      if op.get('op') == 'bind' and 'err' not in r:
+        final[(op['scope'], op['sel'], op['arg'])] = op['val']
+    gone = [[k, encode_text(v)] for k, v in final.items() if G_repr(v) and k not in restored]
+    if gone:
+      return f'bindings with a literal form not restored by parsing the config string: {gone[:3]}\n{impl["text"]}'
   if impl['text_again'] != impl['text']:
     return f'serialising again gives a different text:\n{impl["text"]!r}\nvs\n{impl["text_again"]!r}'
   if impl['unwrapped_too_long'] and case['_width'][0] > case['_width'][1]:
@@ -416,6 +474,13 @@ def classify(case, impl, model, why_oracle, why_model, findings):
       if '# None.' in impl.get('text', '') and '# None.' not in impl.get('text_again', ''):
         a = [l for l in impl['text'].split('\n') if not l.startswith('#') and l]
         b = [l for l in impl['text_again'].split('\n') if not l.startswith('#') and l]
-        if a == b:
+        # ... and only when every empty section is one the case explains: a (scope, configurable) all of whose bound
+        # values lack a literal form (a section that is empty because a representable binding was left out is not D24)
+        groups = {}
+        for op, r in zip(case['ops'], impl['out']):
+          if op.get('op') == 'bind' and 'err' not in r and op['sel'] != 'gin.macro':
+            groups.setdefault((op['scope'], op['sel']), {})[op['arg']] = op['val']
+        explained = sum(1 for vals in groups.values() if not any(G_repr(v) for v in vals.values()))
+        if a == b and impl['text'].count('# None.') == explained and not impl.get('lost'):
           return 'D24'
   return None
